@@ -232,9 +232,23 @@ def impl(case):
         from sklearn.preprocessing import FunctionTransformer
         base = Pipeline([("id", FunctionTransformer()), ("clf", base)])
         kw["sample_weight_name"] = "clf__sample_weight"
-    est = GridSearch(base, _moment(case), **kw,
-                     constraint_weight=float(Fraction(case["constraint_weight"])),
-                     grid_size=case["grid_size"], grid_limit=float(Fraction(case["grid_limit"])))
+    import hashlib, json as _json
+    prehist = int(hashlib.sha1(_json.dumps({k_: v_ for k_, v_ in case.items() if not str(k_).startswith("_")},
+                                            sort_keys=True, default=str).encode()).hexdigest(), 16) % 3 == 0
+    if prehist:
+        # the same estimator object first configured differently and fitted, then re-configured through
+        # set_params: everything checked below must describe the last fit only
+        est = GridSearch(base, _moment(case), **kw, constraint_weight=0.5, grid_size=3, grid_limit=1.0)
+        try:
+            est.fit(X, y, sensitive_features=sf)
+        except Exception:
+            pass
+        est.set_params(constraint_weight=float(Fraction(case["constraint_weight"])), grid_size=case["grid_size"],
+                       grid_limit=float(Fraction(case["grid_limit"])))
+    else:
+        est = GridSearch(base, _moment(case), **kw,
+                         constraint_weight=float(Fraction(case["constraint_weight"])),
+                         grid_size=case["grid_size"], grid_limit=float(Fraction(case["grid_limit"])))
     try:
         est.fit(X, y, sensitive_features=sf)
     except Exception as e:  # fit must train one predictor per grid point: an exception is a finding
